@@ -317,7 +317,7 @@ func (r *runner) build(ev event, committed *snap) []*built {
 					b.expect = "fails-precheck"
 				}
 			case "create-store", "create-kill":
-				code, val := xch.InitCode(xch.StoreRuntime), zero
+				code, val := xch.InitCode(storeClearRuntime), zero
 				if o.Kind == "create-kill" {
 					code, val = xch.InitCode(xch.KillRuntime), harness.OLTUnits(2)
 					b.value = olt(2)
@@ -389,6 +389,38 @@ func (r *runner) role(a string) string {
 		return x
 	}
 	return "other"
+}
+
+// storeClearRuntime is xch.StoreRuntime with one more store: a call with a non-zero word v sets storage[0] = v
+// AND clears storage[1] (which the init code set to 42). The FIRST successful call after the deployment
+// therefore earns a storage gas refund, later ones do not - so the alphabet covers executions with and
+// without a refund without growing. (Added after a seeded change - the refund handed to the sender but not
+// deducted from the gas used that is reported and charged to the fee pool - escaped the refund-free alphabet.)
+//
+//	v := calldata[0:32]; if v == 0 { revert(0,0) }; storage[0] = v; storage[1] = 0; log0(v); stop
+var storeClearRuntime = []byte{
+	0x60, 0x00, // 00 PUSH1 0
+	0x35,       // 02 CALLDATALOAD        v
+	0x80,       // 03 DUP1                v v
+	0x15,       // 04 ISZERO              v (v==0)
+	0x60, 0x1a, // 05 PUSH1 0x1a
+	0x57,       // 07 JUMPI               v
+	0x80,       // 08 DUP1                v v
+	0x60, 0x00, // 09 PUSH1 0
+	0x55,       // 0b SSTORE              v          storage[0]=v
+	0x60, 0x00, // 0c PUSH1 0
+	0x60, 0x01, // 0e PUSH1 1
+	0x55,       // 10 SSTORE              v          storage[1]=0
+	0x60, 0x00, // 11 PUSH1 0
+	0x52,       // 13 MSTORE                         mem[0:32]=v
+	0x60, 0x20, // 14 PUSH1 32
+	0x60, 0x00, // 16 PUSH1 0
+	0xa0,       // 18 LOG0
+	0x00,       // 19 STOP
+	0x5b,       // 1a JUMPDEST
+	0x60, 0x00, // 1b PUSH1 0
+	0x60, 0x00, // 1d PUSH1 0
+	0xfd, // 1f REVERT
 }
 
 func sub(a, b *big.Int) *big.Int { return new(big.Int).Sub(a, b) }
